@@ -120,9 +120,9 @@ pub fn run_scenario(sc: &Scenario) -> Verdict {
             }));
         }
         // end of scenario: drop the master reference, give everything ample virtual time
-        { let master = master.clone(); tasks.push(tokio::task::spawn_local(async move { tokio::time::sleep(Duration::from_millis(2_000)).await; master.borrow_mut().take(); })); }
-        for t in tasks { let _ = tokio::time::timeout(Duration::from_secs(60), t).await; }
-        let jr = tokio::time::timeout(Duration::from_secs(60), h).await;
+        { let master = master.clone(); tasks.push(tokio::task::spawn_local(async move { tokio::time::sleep(Duration::from_millis(30_000)).await; master.borrow_mut().take(); })); }
+        for t in tasks { let _ = tokio::time::timeout(Duration::from_secs(600), t).await; }
+        let jr = tokio::time::timeout(Duration::from_secs(600), h).await;
         let (kind, joined) = match jr {
             Ok(Ok(ActorResult::Completed { killed, .. })) => (format!("Completed:{killed}"), true),
             Ok(Ok(ActorResult::Failed { phase, killed, .. })) => (format!("Failed:{phase}:{killed}"), true),
@@ -269,6 +269,8 @@ fn curated() -> Vec<Scenario> {
         s(1, 0, vec![0], vec![(0, Tell { h: 5 }), (0, Tell { h: 5 }), (0, Tell { h: 5 }), (1, DropRefs)]),
         s(4, 0, vec![0], vec![(0, Tell { h: 30 }), (5, AskT { h: 0, d: 10 }), (100, Stop)]),
         s(2, 0, vec![3], vec![(0, Tell { h: 0 }), (5, DropRefs)]),
+        s(1, 0, vec![0], vec![(0, Tell { h: 5000 }), (5, Tell { h: 0 }), (6, ErasedStop)]),
+        s(1, 0, vec![0], vec![(0, Tell { h: 5000 }), (5, Tell { h: 0 }), (6, Stop), (7, TellT { h: 0, d: 45 })]),
         s(2, 0, vec![1, 3], vec![(0, Tell { h: 5 }), (1, Tell { h: 0 }), (2, DropRefs)]),
         s(4, 0, vec![0], vec![(0, Tell { h: 30 }), (5, AskT { h: 0, d: 10 }), (6, Tell { h: 0 }), (20, DropRefs)]),
     ]
@@ -281,7 +283,7 @@ fn random(rng: &mut Rng) -> Scenario {
     let mut t = 0u64;
     for _ in 0..n {
         t += rng.pick(&[0u64, 0, 1, 5, 35, 70]);
-        let h = rng.pick(&[0u64, 0, 30]);
+        let h = rng.pick(&[0u64, 0, 0, 30, 30, 5000]);
         let d = rng.pick(&[10u64, 20, 45]);
         let op = match rng.next() % 16 { 0..=3 => Tell { h }, 4..=5 => Ask { h }, 6..=7 => TellT { h, d }, 8..=9 => AskT { h, d }, 10 => Stop, 11 => Kill, 12 => DropRefs, 13 => ErasedTell { h }, 14 => ErasedStop, _ => ErasedKill };
         steps.push(Step { at: t, op });
